@@ -180,6 +180,11 @@ def real_parse(text):
     return None if r is None else list(r)
 
 
+def j1_builder():
+    b = object.__new__(sq.SQLiteBuilder); b.json1_available = True
+    return b
+
+
 def path_tie(ctx):
     rng = ctx.rng
     ponyutil.add_stubs()
@@ -195,7 +200,8 @@ def path_tie(ctx):
                 keys.append(rng.choice(INT_POOL + [-2, 3, 12, 100, -100]) if rng.random() < 0.35 else gen_key(rng))
         reqs.append({'op': 'path', 'keys': keys, 'word': word_extra(keys)})
         path = SQLBuilder.eval_json_path(keys)
-        reals.append({'path': path, 'pg': PGSQLBuilder.eval_json_path(None, keys), 'parsed': real_parse(path)})
+        j1path = j1_builder().eval_json_path(keys)          # what the SQLite builder writes when JSON1 is available
+        reals.append({'path': path, 'pg': PGSQLBuilder.eval_json_path(None, keys), 'parsed': real_parse(path), 'j1path': j1path, 'j1parsed': real_parse(j1path)})
         inputs.append(keys)
     outs = ctx.driver('C29', reqs)
     for keys, real, out in zip(inputs, reals, outs):
@@ -309,6 +315,7 @@ def nav_tie(ctx, lits):
             if cands: key = rng.choice(cands)
         text = sq.dumps(doc)
         ptext = SQLBuilder.eval_json_path(path)
+        j1text = j1_builder().eval_json_path(path)
         sq.path_cache.clear()
         real = {'dumps': text}
         real['traverse'] = tagged_or_error(lambda: sq._traverse(doc, tuple(path)))
@@ -329,7 +336,7 @@ def nav_tie(ctx, lits):
         real['pyIn'] = (key in v) if 'ok' in tv and isinstance(v, (list, dict)) else None
         if real['pyIn'] is not None: ctx.count('nav-contains:%s:%s' % (type(v).__name__, real['pyIn']))
         real['topOk'] = True if 'ok' in tv else None
-        r1 = j1.query(text, ptext)
+        r1 = j1.query(text, j1text)
         real['json1'] = {'ok': enc(r1['ok'])} if 'ok' in r1 else r1
         reqs.append({'op': 'nav', 'doc': enc(doc), 'keys': path, 'key': key, 'lits': lits, 'word': word_extra(list(walk_strings(doc)) + path)})
         reals.append(real); inputs.append({'doc': doc, 'path': path, 'key': key})
@@ -368,9 +375,11 @@ def eval_index_ast(ast, length, col):
     if op == 'NEG': return -eval_index_ast(ast[1], length, col)
     if op == 'CASE':
         assert ast[1] is None
+        import operator
+        cmp = {'GE': operator.ge, 'GT': operator.gt, 'LE': operator.le, 'LT': operator.lt, 'EQ': operator.eq, 'NE': operator.ne}
         for cond, then in ast[2]:
-            assert cond[0] == 'GE'
-            if eval_index_ast(cond[1], length, col) >= eval_index_ast(cond[2], length, col): return eval_index_ast(then, length, col)
+            if cond[0] not in cmp: raise ValueError('unexpected condition %r in an array index expression' % (cond[0],))
+            if cmp[cond[0]](eval_index_ast(cond[1], length, col), eval_index_ast(cond[2], length, col)): return eval_index_ast(then, length, col)
         return eval_index_ast(ast[3], length, col)
     raise ValueError('unexpected node %r in an array index expression' % (op,))
 
@@ -406,7 +415,10 @@ def array_tie(ctx, clamp):
                     ctx.count('index-ast:%s:%s' % (form, ti[2][0]))
                     assert ti[0] == 'ARRAY_INDEX' and ts[0] == 'ARRAY_SLICE', (ti, ts)
                     for n in lens:
-                        cases.append((prov, from_one, form, v, n, eval_index_ast(ti[2], n, v), eval_index_ast(ts[2], n, v), eval_index_ast(ts[3], n, v)))
+                        try:
+                            cases.append((prov, from_one, form, v, n, eval_index_ast(ti[2], n, v), eval_index_ast(ts[2], n, v), eval_index_ast(ts[3], n, v)))
+                        except (ValueError, AssertionError, IndexError, TypeError) as e:
+                            ctx.divergence('ArrayMixin._index emits an expression outside the modelled shape: %s' % e, [prov, form, v, n], model=None, impl=repr(ti[2])[:300])
     outs = ctx.driver('C29', [{'op': 'index', 'value': c[3], 'len': c[4]} for c in cases])
     for c, out in zip(cases, outs):
         prov, from_one, form, v, n, idx, start, stop = c
@@ -720,6 +732,29 @@ def witnesses(ctx, orc):
     ctx.extra['witnesses'] = state
 
 
+FIXED_DOC = {'i': 5, 'n': -3, 'z': 0, 'big': 10 ** 12, 'f': 1.5, 'g': -2.25, 'h': 0.1 + 0.2, 's': 'abc', 'e': '', 't': True, 'u': False,
+             'in': {'f': 2.5, 'i': 7, 's': 'b'}, 'li': [4, 3.5, 'x']}
+
+
+def fixed_comparisons(ctx, orc):
+    """every scalar type compared with constants of its own type (equal, slightly larger, slightly smaller), all six operators, constant and
+    parameter, both back ends — the comparisons the translator casts for must hold on every run"""
+    rng = ctx.rng
+    rids = {j1: orc.store(j1, data=FIXED_DOC) for j1 in (True, False)}
+    paths = [[k] for k in ('i', 'n', 'z', 'big', 'f', 'g', 'h', 's', 'e', 't', 'u')] + [['in', 'f'], ['in', 'i'], ['in', 's'], ['li', 0], ['li', 1], ['li', 2]]
+    for path in paths:
+        v = py_navigate(FIXED_DOC, path)[1]
+        if isinstance(v, bool): consts = [True, False]; cops = ['==', '!=']
+        elif isinstance(v, int): consts = [v, v + 1, v - 1, float(v)]; cops = ['==', '!=', '<', '<=', '>', '>=']
+        elif isinstance(v, float): consts = [v, v + 0.5, v - 0.25]; cops = ['==', '!=', '<', '<=', '>', '>=']
+        else: consts = [v, v + 'a', 'ab', '']; cops = ['==', '!=', '<', '<=', '>', '>=']
+        for c in consts:
+            for cop in (cops if ctx.thorough else rng.sample(cops, min(3, len(cops))) + ['==']):
+                c_param = rng.random() < 0.5
+                for j1 in (True, False):
+                    orc.json_op(j1, rids[j1], FIXED_DOC, path, 'cmp', (cop, c, c_param), as_params=rng.random() < 0.3, gen=True)
+
+
 def scalar_like(rng, v):
     """a constant of the same type as v (so that the comparison is the type-matched one the translator casts for)"""
     if isinstance(v, bool): return rng.choice([True, False])
@@ -878,6 +913,7 @@ def run(ctx):
         lits = re.findall(r"'((?:[^']|'')*)'", sq.SQLiteBuilder.JSON_NONZERO(lambda e: 'E', None)[1].split('NOT IN', 1)[1]); clamp = False
     orc = Oracle(ctx, lits)
     witnesses(ctx, orc)
+    fixed_comparisons(ctx, orc)
     oracle_json(ctx, orc)
     oracle_json_multi(ctx, orc)
     oracle_array(ctx, orc, clamp)
